@@ -48,7 +48,7 @@ from shapely.geometry import (
 from shapely.geometry import box as sbox
 from shapely.geometry.base import BaseGeometry
 
-from vf import core, e1
+from vf import core, e1, introspect
 from vf.core import R
 
 PROPERTY = "C01"
@@ -363,8 +363,7 @@ OPERAND = {"Geometry": geom_operand, "BoundingBox": bb_operand, "GeoBox": gb_ope
 
 def reset():
     """Per shard: empty the library's CRS caches and every object built on top of them."""
-    crsmod._crs_cache.clear()  # pylint: disable=protected-access
-    crsmod._make_crs_transform.cache.clear()  # pylint: disable=protected-access
+    introspect.clear_caches(crsmod)  # found by introspection, not by name
     _TAGV.clear()
     _OBJ.clear()
 
@@ -1607,8 +1606,7 @@ def run_fresh(case):
     built = {}
     for which in order:
         if which == "|":
-            crsmod._crs_cache.clear()  # pylint: disable=protected-access
-            crsmod._make_crs_transform.cache.clear()  # pylint: disable=protected-access
+            introspect.clear_caches(crsmod)
             continue
         i = "ab".index(which)
         tag = (ta, tb)[i]
